@@ -1,4 +1,5 @@
 import FxVerif.Model.C17
+import FxVerif.Model.C17Float
 /-!
 # C17 model — a block machine whose map iterations are scheduled by an adversary
 
@@ -48,6 +49,8 @@ inductive Out where
   | fees (l : List (String × Nat × Nat × Nat))
   | num (n : Nat)
   | chains (l : List String)
+  /-- `isNeedOracleSetRequest`: the rendered power difference (units of 10^-8) and the decision -/
+  | decision (rendered : Nat) (need : Bool)
   deriving DecidableEq, Repr
 
 /-! ## `Keeper.UpdateProposalOracles` -/
@@ -159,6 +162,9 @@ inductive Op where
   /-- `isNeedOracleSetRequest` → `PowerDiff`: ranges over the merged power map -/
   | powerDiff (cur latest : List (String × Nat))
   | supportChains (registered : List String)
+  /-- the end blocker's `isNeedOracleSetRequest` (step 3): `PowerDiff` with its FLOAT accumulation in map order, the single
+  division, `%.8f`, `LegacyNewDecFromStr`, comparison with the (capped) parameter; a request leaves an event -/
+  | needOracleSet (cur latest : List (String × Nat)) (percentRaw : Nat)
   deriving Repr
 
 def execP (mapFed : Bool) (σ : Sched) (st : St) : Op → St × Out
@@ -173,6 +179,11 @@ def execP (mapFed : Bool) (σ : Sched) (st : St) : Op → St × Out
   | .supportChains reg =>
     let r := rangeMap σ st reg
     (r.2, .chains (sortChains r.1))
+  | .needOracleSet cur latest pct =>
+    let r := rangeMap σ st (mergePowers cur latest)
+    match powerDiffStep (r.1.map (·.2)) pct with
+    | some (u, need) => ({ r.2 with events := r.2.events ++ (if need then ["oracle-set-request"] else []) }, .decision u need)
+    | none => (r.2, .err "out-of-range")
 
 def runP (mapFed : Bool) (σ : Sched) : St → List Op → St × List Out
   | st, [] => (st, [])
